@@ -9,11 +9,14 @@ ROOT = os.path.dirname(os.path.dirname(os.path.abspath(__file__)))
 src = sys.argv[1]
 extra = dict(a.split("=") for a in sys.argv[2:])
 results = {}
+start = os.environ.get("ROUND_START", "")  # e.g. C07:d2 - resume there after an interruption
 for pdir in sorted(glob.glob(os.path.join(src, "C??"))):
     pid = os.path.basename(pdir)
     for d in sorted(glob.glob(os.path.join(pdir, "seed", "d*"))):
+        if start and "%s:%s" % (pid, os.path.basename(d)) < start:
+            continue
         used = {os.path.basename(x).split("-")[1] for x in glob.glob(os.path.join(ROOT, "seeded", pid + "-*"))}
-        letter = next(l for l in string.ascii_lowercase if l not in used)
+        letter = next(l for l in list(string.ascii_lowercase) + ["a" + x for x in string.ascii_lowercase] if l not in used)
         name = "%s-%s" % (pid, letter)
         dst = os.path.join(ROOT, "seeded", name)
         subprocess.run(["cp", "-r", d, dst], check=True)
@@ -31,4 +34,4 @@ for pdir in sorted(glob.glob(os.path.join(src, "C??"))):
             meta = {}
         results[name] = {"verify": vline, "tests": lines, "summary": meta.get("summary", ""), "needs": meta.get("needs", "")}
 os.makedirs(os.path.join(ROOT, ".work"), exist_ok=True)
-json.dump(results, open(os.path.join(ROOT, ".work", "round-results.json"), "w"), indent=1)
+json.dump(results, open(os.path.join(ROOT, ".work", "round-results%s.json" % ("-resumed" if start else "")), "w"), indent=1)
